@@ -19,6 +19,7 @@ mod c12;
 mod c13;
 mod c15;
 mod c16;
+mod c16_services;
 mod c17;
 mod c18;
 mod c19;
